@@ -144,8 +144,14 @@ def oracle_dir(runs):
         if r["start"] == "slow-start":
             stats["slow_starts"] = stats.get("slow_starts", 0) + 1
             continue
+        if r["start"] == "inconclusive-slow":
+            # alive, no error in its log, not serving within the generous budget, twice: a slow machine; nothing is concluded
+            stats["inconclusive_slow"] = stats.get("inconclusive_slow", 0) + 1
+            return fails, stats
         if r["start"] not in ("ready", "died-at-startup-point"):
-            fails.append(dict(name="norestart-d%d-r%d" % (r["dir"], r["run"]), case=dict(ident, start=r["start"], log=(r.get("log") or "")[-3000:],
+            fails.append(dict(name="norestart-d%d-r%d" % (r["dir"], r["run"]), case=dict(ident, start=r["start"], start_ms=r.get("start_ms"),
+                                                                                       log=(r.get("log") or "(the child logged nothing)")[-4000:],
+                                                                                       events_tail=(r.get("events") or [])[-12:],
                                                                                        listing=r.get("listing")),
                               what="the node did not come back on its own directory after the crash (%s): %s" % (history[-2] if len(history) > 1 else "-", r["start"]),
                               sig_hint=sig_of_log(r.get("log") or "", r["start"])))
@@ -431,9 +437,13 @@ def oracle_follower(runs):
             return fails, stats
         if r["start"] == "died-at-startup-point":
             continue
+        if r["start"] == "inconclusive-slow":
+            stats["inconclusive_slow"] = stats.get("inconclusive_slow", 0) + 1
+            return fails, stats
         if r["start"] != "ready":
             fails.append(dict(name="follower-norestart-d%d-r%d" % (r["dir"], r["run"]),
-                              case=dict(ident, start=r["start"], log=(r.get("log") or "")[-3000:], listing=r.get("listing")),
+                              case=dict(ident, start=r["start"], start_ms=r.get("start_ms"), log=(r.get("log") or "(the child logged nothing)")[-4000:],
+                                        events_tail=(r.get("events") or [])[-12:], listing=r.get("listing")),
                               what="the follower did not come back on its own directory after the crash (%s): %s" % (history[-2] if len(history) > 1 else "-", r["start"]),
                               sig_hint=sig_of_log(r.get("log") or "", r["start"]), signature=snap_with_entries_signature(runs, r)))
             return fails, stats
@@ -485,7 +495,7 @@ def oracle_follower(runs):
         elif conv == "timeout":
             fails.append(dict(name="follower-noconverge-d%d-r%d" % (r["dir"], r["run"]),
                               case=dict(ident, crash=history[-2] if len(history) > 1 else None, last_events=(r.get("events") or [])[-25:]),
-                              what="the restarted follower did not catch up with the leader within 25 s"))
+                              what="the restarted follower (alive, healed) did not catch up with the leader within 90 s"))
             return fails, stats
     return fails, stats
 
@@ -586,6 +596,8 @@ def evaluate(d, jobs):
             hist[key] = hist.get(key, 0) + 1
             hist["death=" + r["death"]] = hist.get("death=" + r["death"], 0) + 1
             hist["max_life_ms"] = max(hist.get("max_life_ms", 0), int(r.get("life_ms") or 0))
+            if r["start"] == "ready" and r.get("start_ms"):
+                hist.setdefault("_start_ms", []).append(int(r["start_ms"]))
             ev = r.get("events") or []
             if r["death"] in ("crashpoint", "startup-crashpoint") and ev and ev[-1].startswith("KILL "):
                 kp = "killed_at:" + ev[-1].split()[1]
@@ -652,6 +664,8 @@ def run(ctx):
             batches.append(("sparse", gen_sparse_snapshots(ctx.seed, 45, engines)))
 
     all_fail, all_mism, stats_all, hist_all, samples = [], [], {}, {}, []
+    not_followed = []
+    start_ms_all = []
     model_stats = {}
     lives_total = events_total = cmp_total = 0
     distinct = set()
@@ -682,6 +696,11 @@ def run(ctx):
             if len(la) == len(lb) and all(x == y or (x.endswith("rec=?") and y.startswith(x[:-1])) for x, y in zip(la, lb)):
                 continue
             bad = [(i, x, y) for i, (x, y) in enumerate(zip(la, lb)) if not (x == y or (x.endswith("rec=?") and y.startswith(x[:-1])))]
+            if any(":107:" in x for x in lb):
+                # a step the model does not follow (Path.R_OUT): the directory is outside the model, its event logs are
+                # not compared (the oracle on its dumps still applies); counted in the evidence
+                not_followed.append(name + ":" + cid + " " + next(x for x in lb if ":107:" in x))
+                continue
             di = int(cid[1:])
             real_mism.append((name + ":" + cid, "life %d: %s" % (bad[0][0], bad[0][1]) if bad else a, "life %d: %s" % (bad[0][0], bad[0][2]) if bad else b,
                               jobs[di] if di < len(jobs) else None))
@@ -700,6 +719,9 @@ def run(ctx):
         for k, v in stats.items():
             stats_all[k] = stats_all.get(k, 0) + v
         for k, v in hist.items():
+            if k == "_start_ms":
+                start_ms_all.extend(v)
+                continue
             hist_all[k] = max(hist_all.get(k, 0), v) if k.startswith("max_") else hist_all.get(k, 0) + v
         if pending_topup:
             got = set(k.split(":", 1)[1] for k in hist_all if k.startswith("killed_at:"))
@@ -790,11 +812,24 @@ def run(ctx):
                                         "-1 = no such decision seen); max_window = the same over all states; log_order_races = events accepted after "
                                         "completing another goroutine's in-flight sub-step (the events passed through candidate crash images count too)"),
         mismatches=len(all_mism),
+        child_startup_ms=(lambda v: dict(n=len(v), p50=v[len(v) // 2], p95=v[(len(v) * 95) // 100], max=v[-1]) if v else dict(n=0))(sorted(start_ms_all)),
+        slow_environment=dict(slow_starts_retried=stats_all.get("slow_starts", 0), inconclusive_slow=stats_all.get("inconclusive_slow", 0),
+                              env_failures=stats_all.get("env_failures", 0),
+                              note="a start is a failure of the property only with positive evidence (the child exited or reported an error of its "
+                                   "start, or its log holds a recovery error, or it was alive past its restart and refused to serve twice under budgets of "
+                                   "90 s + 60 s); a child that is merely slow is retried once on fresh ports and then reported here as inconclusive"),
+        not_followed=dict(directories=len(not_followed), first=not_followed[:3],
+                          note="directories in which the code took a step the path model does not follow (reject reason 107: "
+                               "a checkpoint fetched under the index the backup loop is writing, a local snapshot at the index of an "
+                               "incoming snapshot whose record a crash left invalid): their event logs are not compared, their dumps are checked"),
         samples=samples[:5],
     ), assumptions=[
         "crash model of the theorems: process death (SIGKILL): everything handed to write(2) survives, buffered WAL records may be lost; "
         "power loss is refuted separately for optimizedFsync (C06_powerloss_refuted)",
-        "single replica per raft group (the harness runs one); follower-only steps (incoming snapshot) are not reached and not modelled",
+        "one replica is modelled: its peers appear as the source of the Readys, of an incoming snapshot's index and of its checkpoint, which is assumed to "
+        "hold the state at that index (C14, C15); a Ready carries an incoming snapshot alone (open finding otherwise: known_findings.d/recover.jsonl)",
+        "schedule hypotheses (evaluated on every run): snap directory purge with fewer snapshots in the window than files kept; no checkpoint purge "
+        "between an incoming snapshot's snap file and the hard state that makes its record valid",
         "a checkpoint named i holds the engine content of the moment the apply loop asked for it (C14's concern; pebble releases the apply loop by a timer)",
         "raft hands out entries without gaps and never lowers the commit index (checked on every observed Ready by the acceptor)",
     ])
